@@ -415,6 +415,8 @@ func generate() {
 	generateCallers()
 	// the request layer: names looked up, confirmed, then modified / delete-marked (absent names next to present ones).
 	generateRequests()
+	// the .PASSWDS accessors of cmbbs at the uid boundaries.
+	generatePasswd()
 
 	// 4. random histories.
 	nh, maxOps := 600, 28
